@@ -212,8 +212,9 @@ CLAIMED = {
         "DESIGN.md §4 C12"),
     "C15": (
         "TLC evaluation of Tune.tla on all 82 944 rank combinations with algebraic sanity invariants (+ bug-switch "
-        "counterexample); TLC-generated rank combinations run through make_tune_ok (hook) and real handshakes; TLC "
-        "trace validation against Tune.tla",
+        "counterexample); soundness of the rank abstraction and the statement's wording on the full u16/u32 domains "
+        "discharged symbolically by Apalache (TuneInd.tla); TLC-generated rank combinations run through "
+        "make_tune_ok (hook) and real handshakes; TLC trace validation against Tune.tla",
         "TLC checks the negotiation operators (0 = unlimited, lower side wins, heartbeat plain minimum, frame_max < 4096 "
         "-> FrameMaxTooSmall) on every combination of order-preserving value ranks and shows the invariants fail if 0 "
         "is treated as a number. The code is bound by running every rank combination, concretised with interval end "
